@@ -548,6 +548,13 @@ func (w *World) logBlock(what string, b *BlockRec) {
 //
 //go:norace
 func (w *World) PreMine(t *Tape, n int, payEvery int) {
+	// long chains exist to meet the built-in rescan batch size (and its
+	// edges); a batch of a few blocks would only multiply the rounds
+	if w.Knobs.ImportBatch != 0 {
+		k := w.Knobs
+		k.ImportBatch = 0
+		w.SetKnobs(k)
+	}
 	for i := 0; i < n; i++ {
 		tip := w.Node.Tip()
 		var b *BlockRec
